@@ -2,8 +2,8 @@
 #[allow(unused_imports)]
 use super::*;
 
+// C36 compiles the verbatim filter text against stand-ins that need the dependency
+// shims: mounted in the shim tree only (the generated mount file is empty elsewhere).
 pub(crate) mod c36 {
-    #[allow(unused_imports)]
-    use super::super::*;
-    include!(concat!(env!("LIBP2P_VERIF"), "/units/C36/filters.rs"));
+    include!(concat!(env!("LIBP2P_VERIF_GEN"), "/C36/mount.rs"));
 }
